@@ -19,10 +19,11 @@ META = dict(
 )
 
 ALL_DEVS = ["Dev_C19_MvSameDirName", "Dev_C19_MvIntoSelf", "Dev_C19_UnlinkedDirResurrected",
-            "Dev_C19_MetaRevertedByOpenFd", "Dev_C19_FlushForgetsOpenFile", "Dev_C19_UnflushedWriteVisible"]
+            "Dev_C19_MetaRevertedByOpenFd", "Dev_C19_FlushForgetsOpenFile", "Dev_C19_UnflushedWriteVisible",
+            "Dev_C19_InlineLeafExtendCorrupts"]
 PKG = "mfs"
 CFGS = [dict(v1=v, shard=s) for v in (False, True) for s in ("none", "links", "size")]
-JVM = ["-XX:ParallelGCThreads=2"]
+JVM = ["-XX:ParallelGCThreads=2", "-Xmx4g"]
 
 
 def tla_set(xs):
@@ -79,6 +80,34 @@ def gen(ctx, sdir, cfg, tag, simulate=None, depth=None, timeout=1500, workers=1,
     if out is not None:
         out[tag] = res
     return res
+
+
+def mc(ctx, sdir, cfg, workers, timeout, coverage):
+    """phase M (like ctx.tlc_mc, but with a bounded JVM: small heap, 2 GC threads -- the state space is tiny and
+    several JVMs run side by side)."""
+    args = ["-workers", str(workers), "-seed", str(ctx.seed)] + (["-coverage", "1"] if coverage else [])
+    txt, rc, dt = ctx._tlc(sdir, "MCMFS.tla", cfg, args, timeout, jvm=JVM, tag="mc")
+    g, d = ctx._parse_counts(txt)
+    m = re.search(r"Error: (Invariant \S+ is violated|Action property \S+ is violated|Temporal properties were violated|Deadlock reached)", txt)
+    ok = rc == 0 and not m and "Model checking completed. No error has been found" in txt
+    ctx.cov["transitions"] += g
+    ctx.cov["states"] += d
+    ctx.cov["phases"].append(dict(phase="M", spec="MFS", cfg=cfg, generated=g, distinct=d, wall_s=round(dt, 1), ok=bool(ok), simulate=0))
+    ctx.log("M MFS/%s: %d generated, %d distinct, %.1fs, ok=%s violated=%s rc=%s" % (cfg, g, d, dt, ok, m.group(1) if m else None, rc))
+    if not ok:
+        ctx.save_text("M_MFS_%s.out" % cfg, txt[-20000:])
+        ctx.broken("model check MFS/%s failed (rc=%s, %s): %s" % (cfg, rc, m.group(1) if m else "no verdict", " | ".join(txt.splitlines()[-6:])))
+        return
+    if coverage:
+        zero = sorted({mm.group(1) for mm in re.finditer(
+            r"<(\w+) line \d+, col \d+ to line \d+, col \d+ of module MFS(?: \([\d ]+\))?>: (\d+):(\d+)", txt)
+            if int(mm.group(3)) == 0 and mm.group(1) != "Init"})
+        taken = {mm.group(1) for mm in re.finditer(
+            r"<(\w+) line \d+, col \d+ to line \d+, col \d+ of module MFS(?: \([\d ]+\))?>: (\d+):(\d+)", txt)
+            if int(mm.group(3)) > 0}
+        zero = [z for z in zero if z not in taken]      # an action may appear once per disjunct
+        if zero:
+            ctx.broken("vacuous: actions never taken in MFS/%s: %s" % (cfg, zero))
 
 
 def with_cfg(behs, offset):
@@ -141,9 +170,7 @@ def run(ctx):
         threads.append(t)
         time.sleep(0.2)
 
-    mres = {}
-    bg(lambda: mres.update(r=ctx.tlc_mc("MFS", "MCMFS.tla", "mc.cfg", timeout=600 if q else 3000, workers=4 if q else 12,
-                                        coverage=not q)))
+    bg(mc, ctx, sdir, "mc.cfg", 4 if q else 8, 900 if q else 5400, not q)
     bg(gen, ctx, sdir, "g_bfs.cfg", "bfs", timeout=900 if q else 3000, workers=2 if q else 8, out=outs)
     bg(gen, ctx, sdir, "g_sim.cfg", "sim", simulate=nsim // 10, depth=31 * 10 + 1, timeout=900 if q else 3000, out=outs)
     if open_devs:
